@@ -55,6 +55,8 @@ func C20(c *Ctx) {
 	r.Rule("R20.5", "pool confinement: the transaction pool's unsynchronised methods (GetTransaction, ProcessTransactions, GenerateBlock, CommitTransactions, ...) are called from exactly one goroutine root per ordering node (the main event loop).")
 	r.Rule("R20.7", "the snapshot names the log position it is paired with: the payload handed to TakeSnapshot(appliedIndex, ..) carries the height minted from the entries up to that index (n.lastExec), set in getSnapshot from that field and from nothing the executor or the ledger reports - their height lags behind the minted height under load, and a follower restored from such a snapshot would re-mint heights it already has or skip blocks.")
 	r.Rule("R20.8", "state sync delivers every height: in StateSyncer.SyncCFTBlocks a range whose fetch failed is not skipped - the retry of the fetch is unbounded (no strategy.Limit), or the error after the retry ends the sync with an error instead of being logged while the loop goes on to the next range; a skipped range is a gap in the heights handed to the executor.")
+	r.Rule("R20.9", batchedMarkText)
+	c.batchedMarks("R20.9")
 	r.Rule("R20.6", "commit notifications: every chain-state report received by an ordering node reaches mempool.CommitTransactions on every path (raft reportState and the solo loop agree).")
 	r.NotDecided = append(r.NotDecided, "Raft safety (dependency), message faults and crash points, identical content across replicas, the arithmetic of sync ranges (calcRangeHeight), whether generated batches can be nil (value-level)")
 
